@@ -45,6 +45,7 @@ impl Service {
 
 //@item broker/src/broker/conn_state.rs struct ConnectionState
 impl ConnectionState {
+    //@include _shared/conn_state_specs.rs
     //@fn-from broker_conn_state broker/src/broker/conn_state.rs ConnectionState::version
     //@fn-from broker_conn_state broker/src/broker/conn_state.rs ConnectionState::remove_call
 
